@@ -61,10 +61,21 @@ def cases(tier, seed):
                         yield {'op': kind, 'expect': label, 'kind': kd, 'lk': lk, 'rk': rk}
 
 
+_LAST = [None, None, None]      # (pair tag, JoinSetup, snapshot) of the previous case
+
+
 def _setup(case):
+    """Tables for a case.  Consecutive cases share the key pair (only join kind / expect change),
+    so the previous pair's tables are reused as long as their view() is still what it was when they
+    were built (joins must not modify their operands - C09/C10 check that on every call)."""
+    tag = (case['kind'], tuple(case['lk']), tuple(case['rk']))
+    if _LAST[0] == tag and _LAST[1].snapshot() == _LAST[2]:
+        return _LAST[1]
     c = {'kinds': [case['kind']], 'lk': [[k] for k in case['lk']], 'rk': [[k] for k in case['rk']],
          'mode': 'name', 'names': 'same', 'pl': 1, 'pr': 1, 'bare': True}
-    return JoinSetup(c)
+    s = JoinSetup(c)
+    _LAST[:] = [tag, s, s.snapshot()]
+    return s
 
 
 def dup_info(keys):
